@@ -115,6 +115,24 @@ package data
 //@     noterm
 //@   loop 2
 //@     noterm
+// struct fields appear under their lowerCamel names: the first RUNE of the Go
+// field name is lower-cased (a field may start with a non-ASCII letter), the
+// rest of the name is kept from the end of that rune.
+//@ func StructOptions.Data
+//@   props C20
+//@   nosafety
+//@   modifies *
+//@   ghost fr rune = 0
+//@   ghost sz int = 0
+//@   at call utf8.DecodeRuneInString#0 assert[first-rune-of-the-field-name;C20] same(arg0, key)
+//@   at call utf8.DecodeRuneInString#0 after set fr = res0
+//@   at call utf8.DecodeRuneInString#0 after set sz = res1
+//@   at call unicode.ToLower#0 assert[the-whole-first-rune-is-lower-cased;C20] arg0 == fr
+//@   at call strings.ToLower#* forbid[no-byte-wise-case-mapping-of-field-names;C20] false
+//@   at call strings.ToUpper#* forbid[no-byte-wise-case-mapping-of-field-names;C20] false
+//@   at call data.NewWith#0 assert[field-values-converted-with-the-same-options;C20] arg0 == c
+//@   loop 0
+//@     noterm
 //@ func New
 //@   props C20
 //@   ensures[idempotent] implements(value, Value) ==> result == value
